@@ -21,7 +21,7 @@ func init() {
 		Assume: []string{"writers in the concurrent sub-workload only add cells, so that GC(M_final) <= final is implied by the statement for every pass instant", "the activity sub-workload uses no constant from the code: 'in use' = touched at most 1 s of wall clock ago"},
 		Run:    runC16,
 	})
-	expectedProbes["C16"] = []string{"c16.condemned", "c16.boundary_cell", "c16.write_inside_pass", "c16.active_table_skipped", "c16.touched_after_long_idle", "c16.rows_wholly_condemned", "c16.server_clock_skewed", "c16.idle_table_collected", "c16.union", "c16.intersection_untouched"}
+	expectedProbes["C16"] = []string{"c16.condemned", "c16.many_rows_pass", "c16.boundary_cell", "c16.write_inside_pass", "c16.active_table_skipped", "c16.touched_after_long_idle", "c16.rows_wholly_condemned", "c16.server_clock_skewed", "c16.idle_table_collected", "c16.union", "c16.intersection_untouched"}
 }
 
 func c16Rule(d *draws) *btapb.GcRule {
@@ -181,6 +181,19 @@ func c16Policy(r *Run, cfg *Stream) {
 			entries = append(entries, entryIn{Key: key, Muts: muts})
 			mt.Rows[key] = mt.applyMutations(mRow{}, muts, now).row
 		}
+	}
+	// a third of the runs: many more rows, each inserted once and in key order (copies of the
+	// drawn rows), so that the pass rewrites rows while the engine's structures are as a bulk
+	// load leaves them (full tree nodes, several iterator batches, several lock hand-overs)
+	if d.n(3) == 0 {
+		nFill := 25 + d.n(200)
+		for e := 0; e < nFill; e++ {
+			key := fmt.Sprintf("s%04d", e)
+			muts := entries[e%nRows].Muts
+			entries = append(entries, entryIn{Key: key, Muts: muts})
+			mt.Rows[key] = mt.applyMutations(mRow{}, muts, now).row
+		}
+		r.Probe("c16.many_rows_pass")
 	}
 	if !c16Write(r, w, c16Tbl, entries) {
 		return
